@@ -41,6 +41,8 @@ FAMILIES = [
     ("GroupBCD", "QuadraticGroup", "WeightedGroupL2"), ("GroupBCD", "LogisticGroup", "WeightedGroupL2"),
     ("GroupProxNewton", "LogisticGroup", "WeightedGroupL2"),
     ("MultiTaskBCD", "QuadraticMultiTask", "L2_1"),
+    ("ProxNewton", "Cox", "L1"),                                    # tied times: the risk sets must not depend on row order
+    ("GroupBCD", "QuadraticGroup", "WeightedL1GroupL2"),            # feature weights travel with the features
 ]
 SYMS = ["feature_perm", "sample_perm", "stack", "target_scale", "column_scale", "group_perm", "task_perm"]
 
@@ -109,6 +111,11 @@ def build(solver, df, pen, P_, storage, icpt, tol, rng_knobs):
         ptr, ind = C.groups_to_ptr(P_.groups)
         pu = PP.WeightedGroupL2(P_.alpha, P_.gweights.copy(), ptr, ind)
         refpen = R.RefPenalty("group", alpha=P_.alpha, weights=P_.gweights, groups=P_.groups)
+    elif pen == "WeightedL1GroupL2":
+        ptr, ind = C.groups_to_ptr(P_.groups)
+        pu = PP.WeightedL1GroupL2(P_.alpha, P_.gweights.copy(), P_.weights.copy(), ptr, ind)
+        refpen = R.RefPenalty("sgroup", alpha=P_.alpha, weights_groups=np.asarray(P_.gweights, float),
+                              weights_features=np.asarray(P_.weights, float), groups=P_.groups)
     else:
         pu, refpen = PP.L2_1(P_.alpha), R.RefPenalty("l21", alpha=P_.alpha)
     if df in ("QuadraticGroup", "LogisticGroup"):
@@ -150,7 +157,7 @@ def one(emit, cid, solver, df, pen, sym, rng, sample):
     tk = C.TARGET_KIND[df or "Quadratic"]
     T = int(rng.integers(2, 4))
     y = C.make_target(rng, X, tk, n_tasks=T)
-    icpt = bool(rng.integers(0, 2)) and info["intercept"]
+    icpt = bool(rng.integers(0, 2)) and info["intercept"] and df != "Cox"
     storage = str(rng.choice(["dense", "csc"])) if (info["sparse"] and not (solver == "GroupBCD" and df == "LogisticGroup")) else "dense"
     tol = 1e-9 if solver != "FISTA" else 1e-7
     refdf = R.RefDatafit(C.DF_KIND[df or "Quadratic"], **({"delta": 1.0} if df == "Huber" else {}))
@@ -167,6 +174,8 @@ def one(emit, cid, solver, df, pen, sym, rng, sample):
     if solver in ("AndersonCD", "GroupBCD", "MultiTaskBCD"):
         knobs["max_epochs"] = 5000
     knobs["max_iter"] = {"FISTA": 20000, "GramCD": 10000}.get(solver, 300)
+    if pen == "WeightedL1GroupL2":
+        knobs["ws_strategy"] = "fixpoint"
     P0 = Prob(X, y, alpha, wts, groups, gw)
     tol0 = tol1 = tol
     tight = False
@@ -247,8 +256,13 @@ def one(emit, cid, solver, df, pen, sym, rng, sample):
     Tw = mapfull(w0)
     viols = []
     conv = s0 <= tol0 and s1 <= tol1
-    c1 = prob1.cert_subdiff(w1)[0]
-    cT = prob1.cert_subdiff(Tw)[0]
+    if knobs.get("ws_strategy") == "fixpoint" and solver == "GroupBCD":
+        # the run stops on the prox-gradient residual: measure its claim in that metric
+        c1 = prob1.cert_fixpoint(w1, prob1.group_lipschitz())[0]
+        cT = prob1.cert_fixpoint(Tw, prob1.group_lipschitz())[0]
+    else:
+        c1 = prob1.cert_subdiff(w1)[0]
+        cT = prob1.cert_subdiff(Tw)[0]
     gs = 1e-10 * (1 + float(np.max(np.abs(prob1.gradient(w1))))) + prob1.dot_error_bound(w1)
     if s1 <= tol1 and solver != "FISTA" and not R.leq(c1, tol1 * (1 + 1e-6) + gs, rel=0.0):
         viols.append(dict(common, mechanism="transformed-problem-solution-fails-certificate", cert=c1, tol=tol1,
@@ -266,7 +280,11 @@ def one(emit, cid, solver, df, pen, sym, rng, sample):
     if conv:
         F1, FT = prob1.objective(w1), prob1.objective(Tw)
         if prob1.pen.convex:
-            margin = max(c1, cT) * float(np.abs(w1 - Tw).sum()) * 1.01 + SLACK["objective_rounding_rel"] * (1 + abs(F1))
+            ms = max(c1, cT)
+            if knobs.get("ws_strategy") == "fixpoint" and solver == "GroupBCD":
+                # the subgradient inequality needs the subdifferential distance: residual x largest block curvature
+                ms = ms * float(np.max(prob1.group_lipschitz())) * 1.01
+            margin = ms * float(np.abs(w1 - Tw).sum()) * 1.01 + SLACK["objective_rounding_rel"] * (1 + abs(F1))
             if not abs(F1 - FT) <= margin:
                 viols.append(dict(common, mechanism="solution-does-not-transform-with-the-problem", gap=float(abs(F1 - FT)),
                                   margin=margin,
